@@ -313,6 +313,11 @@ def add_cds_feature(
     feature = SeqFeature(location, type=GeneIntervalFeatures.CDS.value, strand=strand.value)
     feature.qualifiers = transcript_qualifiers
 
+    # GenBank carries the reading frame of a CDS in /codon_start; write it when it is not the default
+    start_frame = transcript.cds.frames[0] if transcript.cds.strand == Strand.PLUS else transcript.cds.frames[-1]
+    if start_frame.value > 0 and KnownQualifiers.CODON_START.value not in feature.qualifiers:
+        feature.qualifiers[KnownQualifiers.CODON_START.value] = [start_frame.value + 1]
+
     if update_translations:
         # if the sequence has N's, we cannot translate
         try:
